@@ -169,6 +169,8 @@ def gen_description(rng, force=None, hostile=True):
         comp["id"] = "<create>"
     # forest
     budget = [rng.randint(1, 8)]
+    if force == "depth-3-narrowing":
+        force = "depth-3"
     if force in ("depth-3", "all-variant-types"):
         budget = [rng.randint(5, 8)]
     if force == "no-variants":
